@@ -30,13 +30,15 @@ structure Limits where
   maxFactor  : Int
   maxMaxBackoff : Int
   codes : List Text               -- retryableStatusCodes (decimal strings, as in the source)
+  nanClamped : Bool := true       -- `Validate` treats a NaN factor as too small (fact extracted from the source)
   deriving Repr, DecidableEq
 
 def clampI (lo hi x : Int) : Int := if x < lo then lo else if x > hi then hi else x
 
-/-- `if f < Min {Min} else if f > Max {Max}` on a float64: both comparisons are false for NaN. -/
-def clampF (lo hi : Int) : Factor → Factor
-  | .nan => .nan
+/-- `if f < Min {Min} else if f > Max {Max}` on a float64: both comparisons are false for NaN, so NaN is only
+    clamped when the code tests for it explicitly (`nanClamped`). -/
+def clampF (lo hi : Int) (nanClamped : Bool := false) : Factor → Factor
+  | .nan => if nanClamped then .q lo 1 else .nan
   | .ninf => .q lo 1
   | .pinf => .q hi 1
   | .q n d => if n < lo * d then .q lo 1 else if n > hi * d then .q hi 1 else .q n d
@@ -45,7 +47,7 @@ def validate (L : Limits) (c : Cfg) : Cfg :=
   let ib := clampI L.minInitial L.maxInitial c.initial
   { maxRetries := clampI L.minRetries L.maxRetries c.maxRetries
     initial := ib
-    factor := clampF L.minFactor L.maxFactor c.factor
+    factor := clampF L.minFactor L.maxFactor L.nanClamped c.factor
     maxBackoff := if c.maxBackoff < ib then ib
                   else if c.maxBackoff > L.maxMaxBackoff then L.maxMaxBackoff else c.maxBackoff }
 
